@@ -14,6 +14,7 @@ SPEC = {
              "bits of a field are contiguous in network order (little-endian allowed for 802.11/RadioTap/Loopback), their number equals the declared width "
              "and the bit sets of two fields of a class are disjoint. The serialization has to follow the setter: if the prior state serializes and the value "
              "set on a default object serializes, a serialize() that throws after setting it on the prior state is a violation (history-dependent setter). "
+             "small_uint<n>(v) - where over-range values are rejected for every sub-byte / odd-width setter - is swept for every width n = 1..63 (all values of the representation type when it has <= 16 bits, boundary / single-bit / lane patterns above): in-range values are held exactly, over-range values throw. "
              "Positions are compared with a table of the bit positions the specifications assign to 116 fields. distinct_nontrivial = distinct (class, field) pairs swept."),
     "claim": "Every scalar accessor pair of every layer class is swept over its whole value space (<= 16 bits) or over all single-bit and lane patterns (wider).",
     "note": "Trusted: alias-group and derived-byte tables in the harness (documented views of the same bits; checksum/length bytes), sanitizers.",
